@@ -30,6 +30,7 @@ pub fn run(rep: &mut Report, tier: Tier, sel: &[&str], eval: Eval<'_>) {
             "decor" => u_decor(rep, tier, eval),
             "cp" => u_cp(rep, tier, eval),
             "vtok" => u_vtok(rep, tier, eval),
+            "nest" => u_nest(rep, tier, eval),
             "utf8" => u_utf8(rep, tier, eval),
             other => panic!("unknown universe {}", other),
         }
@@ -808,4 +809,38 @@ fn u_vtok(rep: &mut Report, tier: Tier, eval: Eval<'_>) {
     let f = |s: &str, acc: &mut Acc| eval(s.as_bytes(), "U-vtok", acc);
     let (total, acc) = sweep_upto(&V16, n, "", "", &f);
     rep.absorb("U-vtok", &format!("all sequences of <= {} tokens over V16 (value / key level, unframed)", n), total, true, t0, acc);
+}
+
+
+/// single constructs and simple combinations nested just below, at and beyond the recursion limit: below it every
+/// document is valid and must be accepted; from the limit on a refusal is permitted
+pub fn nest_docs() -> Vec<String> {
+    let mut out = Vec::new();
+    for d in [1usize, 2, 3, 40, 77, 78, 79, 80, 81, 82, 100, 128] {
+        out.push(format!("k = {}1{}\n", "[".repeat(d), "]".repeat(d)));
+        out.push(format!("k = {}{}\n", "[".repeat(d), "]".repeat(d)));
+        out.push(format!("k = {}1{}\n", "{a = ".repeat(d), "}".repeat(d)));
+        out.push(format!("k = {}{{}}{}\n", "{a = ".repeat(d.saturating_sub(1)), "}".repeat(d.saturating_sub(1))));
+        out.push(format!("{} = 1\n", vec!["a"; d].join(".")));
+        out.push(format!("[{}]\nx = 1\n", vec!["a"; d].join(".")));
+        out.push(format!("[[{}]]\nx = 1\n", vec!["a"; d].join(".")));
+        out.push(format!("k = {{ {} = 1 }}\n", vec!["a"; d].join(".")));
+        out.push(format!("k = {}'v'{}\n", "[{a = ".repeat(d / 2), "}]".repeat(d / 2)));
+        // a dotted key as the innermost construct below other nesting
+        for outer in [1usize, 2, 3] {
+            if d > outer {
+                out.push(format!("k = {}{{ {} = 1 }}{}\n", "[".repeat(outer), vec!["a"; d - outer].join("."), "]".repeat(outer)));
+                out.push(format!("k = {}{{ {} = 1 }}{}\n", "{a = ".repeat(outer), vec!["b"; d - outer].join("."), "}".repeat(outer)));
+            }
+        }
+    }
+    out
+}
+
+fn u_nest(rep: &mut Report, _tier: Tier, eval: Eval<'_>) {
+    let t0 = Instant::now();
+    let cases = nest_docs();
+    let f = |s: &str, acc: &mut Acc| eval(s.as_bytes(), "U-nest", acc);
+    let (total, acc) = sweep_list(&cases, &f);
+    rep.absorb("U-nest", "9 nesting constructs + dotted keys below 1-3 outer levels x depths {1, 2, 3, 40, 77-82, 100, 128}", total, true, t0, acc);
 }
